@@ -1,9 +1,11 @@
 (* Model of the order-sensitive merges (C09):
      results/third_result.go : JudgeShouldInsertGlobalInfo, InsertThirdGlobalGMaps, FindThirdGlobalGInfo
-     check_third_file.go     : generateAllGlobalMaps (files and, inside a file, globals are visited in Go map order:
-                               the order is the explicit order of the lists here)
+     check_third_file.go     : generateAllGlobalMaps (before fixes/C09-deterministic-order.diff files and, inside a
+                               file, globals are visited in Go map order: the order is the explicit order of the
+                               lists here; since the repair the files are visited in sorted name order: merge_ws true)
      common/dir_manager.go   : GetBestMatchReferFile's choice among candidates (Model/ModulePath.v: argmax_set = what any
-                               sort consistent with Less can put first; first_max = a stable sort on an explicit order)
+                               sort consistent with the old Less can put first; first_max = a stable sort on an explicit
+                               order; best_match true = the repaired Less, score then path)
      check_first_hanlde.go / check_third_file.go worker pools: results arrive in completion order and are stored in
                                maps keyed by file (collect)
      analysis_check_loc_var.go: one scope's unused-local diagnostics are produced while ranging over a map.
